@@ -41,6 +41,7 @@ type Action struct {
 	NParams   int
 	ImplName  string // method: Implementor method; signal: helper "SignalX"; property: base name X (OnXChange, UpdateX)
 	ProxyName string // method: proxy method; signal: "SubscribeX"; property: base name X (GetX, SetX, SubscribeX)
+	Created   bool   // drive the action on an object made with Create<X> as well (twin.go)
 }
 
 // Interface describes one generated interface.
@@ -60,6 +61,7 @@ type Interface struct {
 
 type record struct {
 	Itf, Method string
+	Tag         string // "" = the object registered as the service, otherwise the tag of a created object
 	Args        []interface{}
 	Uses        []use // what the implementation got from the objects among its arguments
 }
@@ -75,6 +77,21 @@ type Handler struct {
 	instVal  map[string]int32          // tag of an object created by the driver -> what its value() returns
 	objCalls []string                  // tags of the created objects whose implementation was invoked, in order
 	retMake  func(args []interface{}) (reflect.Value, error)
+	// created objects (twin.go): the signal helper each of them was activated
+	// with, and the script of a two-caller overlap (one step per invocation, in
+	// order of arrival)
+	tagHelpers map[string]interface{}
+	script     []*callStep
+	arrived    int
+}
+
+// callStep scripts one invocation of the implementation: the value it returns
+// and, optionally, a gate inside the method - the invocation announces itself
+// (entered) and waits there until the driver lets it go on (release).
+type callStep struct {
+	ret     *reflect.Value
+	entered chan struct{}
+	release chan struct{}
 }
 
 // Call records an invocation of the implementation and fills *ret with the
@@ -84,7 +101,7 @@ type Handler struct {
 // object's own number. An implementation that was handed objects uses each of
 // them (value()) before it returns and fails with the first error it got.
 func (h *Handler) Call(tag, itf, method string, args []interface{}, ret interface{}) error {
-	if tag != "" {
+	if tag != "" && !isTwinTag(tag) {
 		h.mu.Lock()
 		h.objCalls = append(h.objCalls, tag)
 		v, ok := h.instVal[tag]
@@ -98,12 +115,33 @@ func (h *Handler) Call(tag, itf, method string, args []interface{}, ret interfac
 	}
 	h.mu.Lock()
 	preset, retMake := h.ret, h.retMake
+	var step *callStep
+	if h.script != nil {
+		if h.arrived < len(h.script) {
+			step = h.script[h.arrived]
+		}
+		h.arrived++
+	}
 	h.mu.Unlock()
 	// not under the lock: using an object re-enters Call (same process)
 	uses, err := useAll(args)
 	h.mu.Lock()
-	h.calls = append(h.calls, record{itf, method, args, uses})
+	h.calls = append(h.calls, record{itf, method, tag, args, uses})
 	h.mu.Unlock()
+	if step != nil {
+		if step.ret != nil {
+			preset = step.ret
+		}
+		if step.entered != nil {
+			close(step.entered)
+		}
+		if step.release != nil {
+			select {
+			case <-step.release:
+			case <-time.After(3 * waitBudget):
+			}
+		}
+	}
 	if err != nil {
 		return err
 	}
@@ -133,11 +171,14 @@ func (h *Handler) Call(tag, itf, method string, args []interface{}, ret interfac
 // Activated stores the signal helper and the activation handed to the
 // implementation registered as the service (tag "").
 func (h *Handler) Activated(tag, itf string, act bus.Activation, helper interface{}) {
-	if tag != "" {
-		return
-	}
 	h.mu.Lock()
 	defer h.mu.Unlock()
+	if tag != "" {
+		if isTwinTag(tag) {
+			h.tagHelpers[tag] = helper
+		}
+		return
+	}
 	h.helpers[itf] = helper
 	h.acts[itf] = act
 }
@@ -149,6 +190,8 @@ func (h *Handler) reset(ret *reflect.Value) {
 	h.ret = ret
 	h.objCalls = nil
 	h.retMake = nil
+	h.script = nil
+	h.arrived = 0
 }
 
 func (h *Handler) snapshot() []record {
@@ -380,6 +423,10 @@ func fresh(t reflect.Type, n int, ctr *int) reflect.Value {
 	v := reflect.New(t).Elem()
 	next := func() int { *ctr++; return *ctr }
 	if t == valueType {
+		if freshPad > 0 {
+			v.Set(reflect.ValueOf(value.String(padded(fmt.Sprintf("v%d", next())))))
+			return v
+		}
 		v.Set(reflect.ValueOf(value.Int(int32(next()))))
 		return v
 	}
@@ -393,7 +440,7 @@ func fresh(t reflect.Type, n int, ctr *int) reflect.Value {
 	case reflect.Float32, reflect.Float64:
 		v.SetFloat(float64(next()) + 0.5)
 	case reflect.String:
-		v.SetString(fmt.Sprintf("v%d", next()))
+		v.SetString(padded(fmt.Sprintf("v%d", next())))
 	case reflect.Slice:
 		s := reflect.MakeSlice(t, 0, n)
 		for i := 0; i < n; i++ {
@@ -418,6 +465,17 @@ func fresh(t reflect.Type, n int, ctr *int) reflect.Value {
 		}
 	}
 	return v
+}
+
+// freshPad > 0: the strings built by fresh are that long (the number first,
+// then a filler that repeats it).
+var freshPad = 0
+
+func padded(s string) string {
+	if freshPad <= len(s) {
+		return s
+	}
+	return (s + strings.Repeat("."+s, freshPad/(len(s)+1)+1))[:freshPad]
 }
 
 // mapKeys drops the values that cannot be distinct, retrievable map keys:
@@ -623,6 +681,11 @@ type Result struct {
 	// (value() through the proxy that crossed the wire) that were checked
 	Objects    map[string]int `json:"objects,omitempty"`
 	ObjectUses int            `json:"object_uses,omitempty"`
+	// created objects (twin.go): value cases driven through each proxy of the
+	// object made with Create<X>, by "<kind>/<local-proxy|remote-proxy>", and
+	// the two-caller interleavings run, by "<gate>/<order>"
+	Created  map[string]int `json:"created,omitempty"`
+	Overlaps map[string]int `json:"overlaps,omitempty"`
 }
 
 func (r *runner) nested(pos string, vs ...reflect.Value) {
@@ -696,9 +759,18 @@ type runner struct {
 	res     *Result
 	seen    map[string]bool
 	session bus.Session
+	// created objects (twin.go): tag of the object the proxy designates ("" =
+	// the object registered as the service) and which of its two proxies is
+	// used (created-object:local-proxy | created-object:remote-proxy)
+	tag string
+	via string
 }
 
 func (r *runner) fail(failure, detail, what, cs string) {
+	if r.via != "" {
+		failure += "@" + r.via
+		what = "[object made with the generated Create" + r.itf.Name + ", driven through its " + strings.TrimPrefix(r.via, "created-object:") + "] " + what
+	}
 	key := failure + "|" + detail
 	if r.seen[key] {
 		return
@@ -731,6 +803,9 @@ func (r *runner) method(a Action) {
 		objects = objects || holdsObject(t)
 	}
 	if objects {
+		if r.via != "" {
+			return // object-typed positions are driven on the service's object only
+		}
 		// object-typed positions: hosting sides, judged by use (objects.go)
 		r.objectMethod(a, m, in)
 		return
@@ -787,6 +862,10 @@ func (r *runner) method(a Action) {
 		c := calls[0]
 		if c.Method != a.ImplName || c.Itf != r.itf.Name {
 			r.fail("wrong-impl-method", c.Method, fmt.Sprintf("%s reached %s.%s instead of %s.%s", cs, c.Itf, c.Method, r.itf.Name, a.ImplName), cs)
+			continue
+		}
+		if c.Tag != r.tag {
+			r.fail("wrong-object", "", fmt.Sprintf("%s reached the implementation of object %q instead of %q", cs, c.Tag, r.tag), cs)
 			continue
 		}
 		if len(c.Args) != len(args) {
@@ -1153,7 +1232,7 @@ func (r *runner) histories(subMethod, label string, all [][]reflect.Value, emit 
 }
 
 func (r *runner) signal(a Action) {
-	helper, ok := r.h.helpers[r.itf.Name]
+	helper, ok := r.h.helper(r.itf.Name, r.tag)
 	if !ok {
 		r.fail("no-helper", "", "Activate was not called with a signal helper", "")
 		return
@@ -1162,6 +1241,13 @@ func (r *runner) signal(a Action) {
 	if !em.IsValid() {
 		r.fail("helper-method-missing", a.ImplName, fmt.Sprintf("the signal helper has no method %s for IDL signal %s", a.ImplName, a.IDLName), "")
 		return
+	}
+	var in []reflect.Type
+	for i := 0; i < em.Type().NumIn(); i++ {
+		in = append(in, em.Type().In(i))
+		if r.via != "" && holdsObject(em.Type().In(i)) {
+			return // object-typed positions are driven on the service's object only
+		}
 	}
 	sub := r.newSubscriber(a.ProxyName, "A")
 	if sub == nil {
@@ -1172,10 +1258,6 @@ func (r *runner) signal(a Action) {
 			go sub.cancel()
 		}
 	}()
-	var in []reflect.Type
-	for i := 0; i < em.Type().NumIn(); i++ {
-		in = append(in, em.Type().In(i))
-	}
 	if curCtx != nil {
 		// objects in a payload are what the service emits: hosted by itself or
 		// by another service (objects.go)
@@ -1237,6 +1319,9 @@ func (r *runner) signal(a Action) {
 	if !r.stop(sub, a.ProxyName) {
 		return
 	}
+	if r.via != "" {
+		return // the subscriber histories are driven on the service's object
+	}
 	r.histories(a.ProxyName, a.ImplName, tps, emit)
 }
 
@@ -1252,6 +1337,9 @@ func (r *runner) property(a Action) {
 		return
 	}
 	t := set.Type().In(0)
+	if r.via != "" && holdsObject(t) {
+		return // object-typed positions are driven on the service's object only
+	}
 	sub := r.newSubscriber("Subscribe"+a.ProxyName, "A")
 	subscribed := sub != nil
 	defer func() {
@@ -1288,7 +1376,7 @@ func (r *runner) property(a Action) {
 		r.res.Checks++
 		okc := false
 		for _, c := range calls {
-			if c.Method == "On"+a.ImplName+"Change" {
+			if c.Method == "On"+a.ImplName+"Change" && c.Tag == r.tag {
 				okc = true
 				if len(c.Args) == 1 {
 					got := reflect.ValueOf(c.Args[0])
@@ -1340,6 +1428,9 @@ func (r *runner) property(a Action) {
 	}
 	if !r.stop(sub, "Subscribe"+a.ProxyName) {
 		return
+	}
+	if r.via != "" {
+		return // the subscriber histories are driven on the service's object
 	}
 	var all [][]reflect.Value
 	for _, v := range vals {
@@ -1402,7 +1493,7 @@ func Main(itfs []Interface) {
 	if err != nil {
 		fatal("server: %v", err)
 	}
-	h := &Handler{helpers: map[string]interface{}{}, acts: map[string]bus.Activation{}, instVal: map[string]int32{}}
+	h := &Handler{helpers: map[string]interface{}{}, acts: map[string]bus.Activation{}, instVal: map[string]int32{}, tagHelpers: map[string]interface{}{}}
 	registerObjectTypes(itfs)
 	for _, itf := range itfs {
 		if _, err := server.NewService(itf.Service, itf.NewObject(h)); err != nil {
@@ -1446,6 +1537,11 @@ func Main(itfs []Interface) {
 				r.signal(a)
 			case "property":
 				r.property(a)
+			}
+			if a.Created && len(res.Violations) == 0 && res.Skipped == "" {
+				// the same action on an object made with the generated Create<X>,
+				// through both of its proxies (twin.go)
+				r.created(a)
 			}
 			res.ObjectUses = usesSoFar() - uses
 			enc.Encode(res)
